@@ -141,6 +141,15 @@ def jobs(tier, seed):
             if kind == 'DRR':
                 cfg['smax'] = 3200
             js.append({'harness': 'monitor', 'cfg': cfg, 'weight': 12})
+    # flow ids beyond the interpreter's small-int cache (every packet carries its own, equal, id object)
+    for kind in ('WFQ', 'SP'):
+        for incl in (True, False):
+            cfg = {'kind': kind, 'rate': 8, 'table': {4001: 1, 70000: 2}, 'flows': [4001, 70000], 'sorts': 'int', 'incl': incl, 'nsamp': 2}
+            if kind == 'WFQ':
+                cfg['float_inexact'] = True
+            js.append({'harness': 'monitor', 'cfg': cfg, 'weight': 12})
+    js.append({'harness': 'wc', 'weight': 10,
+               'cfg': {'kind': 'DRR', 'rate': 8, 'table': {4001: 1, 70000: 2}, 'flows': [4001, 70000, 4001], 'sorts': 'int', 'smax': 3200}})
     # Monitor on a scheduler with several flows mapped onto one class (samples stay per flow)
     for kind in ('SP', 'WFQ', 'VC', 'DRR'):
         for incl in (True, False):
